@@ -307,7 +307,11 @@ def gen_small(seed):
     elif k == 5:
         code, _ = cartgen.filler_code(ch, max_lines=6)
         code = code.replace(b'\x00', b'\x01') + (b'\n' if code and not code.endswith(b'\n') else b'')
-        code += b'function _update60()\n x+=1\nend\n' * (1 + ch.below(3)) + [b'', b'\n', b'y=2', b'-- e'][ch.below(4)]
+        code += b'function _update60()\n x+=1\nend\n' * (1 + ch.below(3)) + [b'', b'\n', b'y=2', b'-- e',
+                 # the author's own last line looks like the compatibility line PICO-8 appends, but is not it
+                 b'if(_update60)_update=function()_update60()end', b'if(_update60)_update=function()_update60()end\n',
+                 b'if(_update60)_update=function()_update60()_update60()_update60()end',
+                 b'if(_update60)_update=function()_update_buttons()end'][ch.below(8)]
         ck = 'update60'
     elif k == 6:
         line = b'function f%d() return %d end\n' % (ch.below(9), ch.below(9))
